@@ -1965,7 +1965,8 @@ getattr_event(trait_object *trait, has_traits_object *obj, PyObject *name)
 +----------------------------------------------------------------------------*/
 
 static PyObject *
-getattr_trait(trait_object *trait, has_traits_object *obj, PyObject *name)
+getattr_trait_impl(
+    trait_object *trait, has_traits_object *obj, PyObject *name, int notify)
 {
     int rc;
     PyListObject *tnotifiers;
@@ -2010,7 +2011,7 @@ getattr_trait(trait_object *trait, has_traits_object *obj, PyObject *name)
     /* Call notifiers. */
     tnotifiers = trait->notifiers;
     onotifiers = obj->notifiers;
-    if (has_notifiers(tnotifiers, onotifiers)) {
+    if (notify && has_notifiers(tnotifiers, onotifiers)) {
         rc = call_notifiers(
             tnotifiers, onotifiers, obj, name, Uninitialized, result);
         if (rc < 0) {
@@ -2023,6 +2024,12 @@ getattr_trait(trait_object *trait, has_traits_object *obj, PyObject *name)
   error:
     Py_DECREF(result);
     return NULL;
+}
+
+static PyObject *
+getattr_trait(trait_object *trait, has_traits_object *obj, PyObject *name)
+{
+    return getattr_trait_impl(trait, obj, name, 1);
 }
 
 /*-----------------------------------------------------------------------------
@@ -2428,7 +2435,16 @@ setattr_trait(
             tnotifiers = traito->notifiers;
             onotifiers = obj->notifiers;
             if ((tnotifiers != NULL) || (onotifiers != NULL)) {
-                value = traito->getattr(traito, obj, name);
+                /* The default value takes the place of the deleted value: that
+                   is reported below as one change from the old value to the
+                   default. Do not announce the creation of the default as
+                   well, or observers hook the new value twice. */
+                if (traito->getattr == getattr_trait) {
+                    value = getattr_trait_impl(traito, obj, name, 0);
+                }
+                else {
+                    value = traito->getattr(traito, obj, name);
+                }
                 if (value == NULL) {
                     Py_DECREF(old_value);
                     return -1;
